@@ -21,6 +21,21 @@ CHECKS = {
             "lost, none duplicated, none out of order); after a handler error still a prefix. The model of "
             "io.rs's queue is tied to the real io::Dispatcher by exhaustive completion interleavings.",
             "section 5, C04"),
+    "C07": ("Coq theorems (Props/C07.v) about an executable model of io.rs's connection life cycle (Processing / "
+            "Backpressure / Stop / Shutdown / ShutdownIo) for all event sequences: at most one Stop control call and "
+            "exactly one when the task completes, which reason it carries, no return to Processing, stopping is notified "
+            "only after the Stop call completed, Done needs Stop + service shutdown + io shutdown; two refutations are "
+            "recorded findings. Model tied to the real io::Dispatcher by 1.6*10^5 event sequences (1.7*10^4 in quick). "
+            "Partial: actual task cancellation, io shutdown and absence of hangs inside ntex are observed by the harness "
+            "only; pending sink futures resolving Disconnected is carried by the sink model (C05/C06/C13).",
+            "section 5, C07"),
+    "C20": ("Coq theorems (Props/C20.v, 20) about an executable model of io.rs's timer flag machine over discrete time "
+            "with an assumed one-slot restartable timer: a live peer is never timed out (default configuration: "
+            "unconditionally; with frame_read_rate: outside the recorded finding), idle peers time out, keep-alive 0 "
+            "disables, read-rate rule (slow frame / extension / max timeout), no underflow from any state, keep-alive "
+            "factor in u16 arithmetic, connect timeout, client PINGREQ cadence. Tied to the real dispatcher by event "
+            "sequences and to real v3/v5 servers/clients by ~100 real-time scenarios (1 s grid). Partial: the timer wheel "
+            "and wall clock are assumed, only tested.", "section 5, C20"),
     "C09": ("Coq theorems on the size/limit arithmetic (var_int_len_from_size inverse for all lengths, truthful var-int "
             "lengths, panic branch reached iff out of range, limit scalars from the source) plus the per-packet "
             "size-agreement/limit theorems listed in the evidence; encoder models tied to the crate for every "
